@@ -1,6 +1,7 @@
 package main
 
 import (
+	"bytes"
 	"context"
 	"encoding/binary"
 	"encoding/json"
@@ -11,6 +12,7 @@ import (
 	"net"
 	"os"
 	"runtime"
+	"runtime/debug"
 	"strconv"
 	"strings"
 	"sync"
@@ -295,9 +297,89 @@ func init() {
 		if err != nil {
 			return err
 		}
+		// sessions through a real layer4 Server (pooled matching buffers shared by consecutive connections)
+		seq, err := runSocksServerSeq(8)
+		if err != nil {
+			return err
+		}
+		seqServed := 0
+		for _, tr := range seq {
+			lw.Write(tr)
+			if tr.Served && tr.May {
+				seqServed++
+			}
+		}
 		if err := lw.Close(); err != nil {
 			return err
 		}
-		return writeJSON(*sum, map[string]any{"cases": total, "served": served, "may_serve": mayN, "errors": errs, "samples": samples})
+		return writeJSON(*sum, map[string]any{"cases": total, "served": served, "may_serve": mayN, "errors": errs, "samples": samples, "server_sequence_connections": len(seq), "server_sequence_served": seqServed})
 	})
+}
+
+// runSocksServerSeq: one real Server with the route "socks5 matcher -> socks5 handler (credentials alice/secret)";
+// per round, consecutive connections: a long non-SOCKS stream, alice's whole session in one write, a client that
+// sends one byte and hangs up, and a client that sends NOTHING. Only alice may be served. One P and no garbage
+// collection, so that the buffer pool hands buffers from one connection to the next.
+func runSocksServerSeq(rounds int) ([]*socksTrace, error) {
+	old := runtime.GOMAXPROCS(1)
+	defer runtime.GOMAXPROCS(old)
+	gc := debug.SetGCPercent(-1)
+	defer debug.SetGCPercent(gc)
+	tgt, err := newSocksTarget()
+	if err != nil {
+		return nil, err
+	}
+	defer tgt.ln.Close()
+	base, err := vh.CaddyContext()
+	if err != nil {
+		return nil, err
+	}
+	ctx, cancel := caddy.NewContext(base)
+	defer cancel()
+	srv := &layer4.Server{MatchingTimeout: caddy.Duration(2 * time.Second)}
+	raw, _ := json.Marshal([]map[string]any{{"match": []map[string]any{{"socks5": map[string]any{}}},
+		"handle": []map[string]any{{"handler": "socks5", "credentials": map[string]string{"alice": "secret"}}}}})
+	if err := json.Unmarshal(raw, &srv.Routes); err != nil {
+		return nil, err
+	}
+	if err := srv.Provision(ctx, zap.NewNop()); err != nil {
+		return nil, err
+	}
+	port := tgt.ln.Addr().(*net.TCPAddr).Port
+	alice := []byte{5, 1, 2, 1, 5, 'a', 'l', 'i', 'c', 'e', 6, 's', 'e', 'c', 'r', 'e', 't', 5, 1, 0, 1, 127, 0, 0, 1, byte(port >> 8), byte(port)}
+	cfg := map[string]any{"cmds": []string{}, "creds": []map[string]string{{"u": "alice", "p": "secret"}}, "form": "server"}
+	var out []*socksTrace
+	n := 0
+	one := func(name string, stream []byte, methods []int, may bool) {
+		n++
+		rec := vh.NewRecorder(stream)
+		sc := &vh.ScriptConn{Rec: rec, Slen: len(stream), EndKind: "eof", Start: time.Now(), Unit: time.Hour,
+			Remote: &net.TCPAddr{IP: net.IPv4(10, 9, 0, byte(n)), Port: 30000 + n}}
+		before := tgt.accepts.Load()
+		tr := &socksTrace{ID: fmt.Sprintf("socks:server:%d:%s", n, name), Cfg: cfg,
+			Sc: map[string]any{"methods": methods, "auth": "right", "cmd": 1, "atyp": 1}, Method: -1, AuthRep: -1, Reply: -1, May: may}
+		func() {
+			defer func() {
+				if r := recover(); r != nil {
+					tr.Panic = fmt.Sprint(r)
+				}
+			}()
+			layer4.VerifServerHandle(srv, sc)
+		}()
+		for k := 0; k < 30 && tgt.accepts.Load() == before; k++ {
+			time.Sleep(time.Millisecond)
+		}
+		tr.Outbound = tgt.accepts.Load() > before
+		// a success reply: version 5, reply code 0 after the method (and status) replies
+		w := sc.Written
+		tr.Served = bytes.Contains(w, []byte{5, 0, 0, 1})
+		out = append(out, tr)
+	}
+	for r := 0; r < rounds; r++ {
+		one("decoy", filler(3000, byte(r)), []int{}, false)
+		one("alice", alice, []int{2}, true)
+		one("onebyte", []byte{5}, []int{}, false)
+		one("silent", []byte{}, []int{}, false)
+	}
+	return out, nil
 }
